@@ -483,6 +483,9 @@ class History:
             us = r.sample(plain, min(len(plain), r.randint(1, 3))) + r.sample(nc, r.randint(1, min(2, len(nc))))
             if r.random() < 0.3:
                 r.shuffle(us)
+        if v in HAS_UNBL and len(self.users) >= 2 and r.random() < 0.3:
+            # a batch of several participants, later restored in one call
+            us = r.sample(self.users, min(len(self.users), r.randint(2, 3)))
         if r.random() < 0.06:
             us = us + us[:1]
         if r.random() < 0.06:
@@ -492,6 +495,8 @@ class History:
             ep = 'refund'
         rec = self.call(caller, [ep, len(us)] + us)
         self.last_blacklisted = list(us)
+        if rec['status'] == 'ok':
+            self.bl_now = getattr(self, 'bl_now', set()) | set(us)
         if rec['status'] == 'ok' and ep == 'blacklist':
             self.nft_conf = getattr(self, 'nft_conf', set()) - set(us)
         if r.random() < 0.6 and rec['status'] == 'ok':
@@ -502,9 +507,14 @@ class History:
             if v in HAS_UNBL or r.random() < 0.2:
                 if r.random() < 0.75:
                     back = us if r.random() < 0.7 else us[:1]
+                    if r.random() < 0.25:
+                        back = sorted(getattr(self, 'bl_now', set()) | set(us))   # everybody blacklisted so far, in one call
+                        r.shuffle(back)
                     if r.random() < 0.1:
                         back = back + [r.choice(self.users)]
-                    self.call(r.choice([OWNER, SUPPORT, caller]), ['unblacklist', len(back)] + back)
+                    rb = self.call(r.choice([OWNER, SUPPORT, caller]), ['unblacklist', len(back)] + back)
+                    if rb['status'] == 'ok':
+                        self.bl_now = getattr(self, 'bl_now', set()) - set(back)
                     if r.random() < 0.7:
                         self.confirm(u, 'ok')
         return rec
